@@ -110,6 +110,8 @@ import ffcx.codegeneration.jit as jit  # noqa: E402
 
 
 def make_form(name):
+    if "@" in name:  # the same form requested for another scalar type, e.g. "mass_p1@complex128"
+        return make_form(name.split("@")[0])
     if name == "mass_p1_diag":  # the same form requested with part='diagonal' (options differ, not the form)
         form, _, x, _ = make_form("mass_p1")
         return form, (3,), x, 0.25
@@ -118,7 +120,7 @@ def make_form(name):
         dom = ufl.Mesh(basix.ufl.element("Lagrange", "triangle", 1, shape=(2,)))
         V = ufl.FunctionSpace(dom, el)
         u, v = ufl.TrialFunction(V), ufl.TestFunction(V)
-        return u * v * ufl.dx, (3, 3), np.array([0, 0, 0, 1, 0, 0, 0, 1, 0.0]), 0.5
+        return ufl.inner(u, v) * ufl.dx, (3, 3), np.array([0, 0, 0, 1, 0, 0, 0, 1, 0.0]), 0.5
     if name == "stiff_p1_interval":
         el = basix.ufl.element("Lagrange", "interval", 1)
         dom = ufl.Mesh(basix.ufl.element("Lagrange", "interval", 1, shape=(1,)))
@@ -148,23 +150,41 @@ for rq in job["requests"]:
         orig_compile = ffcx.compiler.compile_ufl_objects
 
         def boom(*a, **k):
-            raise RuntimeError("injected code generation failure")
+            raise getattr(builtins, rq.get("inject_exc", "RuntimeError"))("injected code generation failure")
 
         ffcx.compiler.compile_ufl_objects = boom
     t0 = time.time()
     try:
         ropts = dict(rq.get("options") or {})
-        if rq["form"].endswith("_diag"):
+        base, _, stype = rq["form"].partition("@")
+        if base.endswith("_diag"):
             ropts["part"] = "diagonal"
+        if stype:
+            ropts["scalar_type"] = stype
+        stype = stype or "float64"
         objs, mod, code = jit.compile_forms([form], options=ropts, cache_dir=cache,
-                                            cffi_extra_compile_args=list(rq.get("cflags", ["-O0"])), timeout=int(rq.get("timeout", 50)))
+                                            cffi_extra_compile_args=list(rq.get("cflags", ["-O0"])), timeout=int(rq.get("timeout", 50)),
+                                            visualise=bool(rq.get("visualise")))
         ffi = mod.ffi
-        A = np.zeros(int(np.prod(shape)))
-        e = np.zeros(0)
+        dt = {"float64": np.float64, "float32": np.float32, "complex128": np.complex128, "complex64": np.complex64}[stype]
+        rt = np.float32 if stype in ("float32", "complex64") else np.float64
+        ct = {"float64": "double", "float32": "float", "complex128": "double _Complex", "complex64": "float _Complex"}[stype]
+        gt = "float" if rt is np.float32 else "double"
+        A = np.zeros(int(np.prod(shape)), dtype=dt)
+        e = np.zeros(0, dtype=dt)
+        xx = np.asarray(x, dtype=rt)
         itg = objs[0].form_integrals[0]
-        itg.tabulate_tensor_float64(ffi.cast("double*", A.ctypes.data), ffi.cast("double*", e.ctypes.data), ffi.cast("double*", e.ctypes.data),
-                                    ffi.cast("double*", x.ctypes.data), ffi.NULL, ffi.NULL, ffi.NULL)
-        res.update(status="ok", compiled=code[1] is not None, total=float(A.sum()), correct=bool(abs(A.sum() - expect_sum) < 1e-12))
+        fn = getattr(itg, "tabulate_tensor_" + stype)
+        if fn == ffi.NULL:
+            present = [t for t in ("float32", "float64", "complex64", "complex128") if getattr(itg, "tabulate_tensor_" + t) != ffi.NULL]
+            res.update(status="ok", compiled=code[1] is not None, total=None, correct=False,
+                       note=f"the returned module has no tabulate_tensor_{stype} kernel (present: {present})")
+        else:
+            fn(ffi.cast(ct + "*", A.ctypes.data), ffi.cast(ct + "*", e.ctypes.data), ffi.cast(ct + "*", e.ctypes.data),
+               ffi.cast(gt + "*", xx.ctypes.data), ffi.NULL, ffi.NULL, ffi.NULL)
+            tot = complex(A.sum())
+            res.update(status="ok", compiled=code[1] is not None, total=float(tot.real),
+                       correct=bool(abs(tot - expect_sum) < (1e-5 if rt is np.float32 else 1e-12)))
     except BaseException as ex:  # noqa: BLE001
         res.update(status="exc", exc=type(ex).__name__, msg=str(ex)[:200])
     finally:
